@@ -15,8 +15,9 @@ from mc.harness import AffineEnsemble, TableEvaluator, make_manager, make_transf
 PROPERTY = "C09"
 RULE = (
     "E4 + E1: V=3, EVERY non-empty variable mask (plus no mask); a scripted optimizer issuing ALL sequences of length <=3 "
-    "over {functions, gradient, both} x 2 free-variable points through a real Plan/optimizer step; real slsqp / "
-    "nelder-mead / differential_evolution(seed) short runs with the scipy entry point wrapped to observe the vectors the "
+    "over {functions, gradient, both, functions on a 2-row batch} x 2 free-variable points through a real Plan/optimizer "
+    "step started from the configured initial values or from explicit start values; real slsqp / nelder-mead / "
+    "differential_evolution(seed, scalar and vectorized) short runs with the scipy entry point wrapped to observe the vectors the "
     "algorithm sees; samplers {one built-in, two built-in samplers on disjoint variable sets, injected design}; variable "
     "scaler on/off; nested plans whose inner optimization owns the complementary mask. Monitors on EVERY evaluator row and "
     "EVERY delivered result (user-domain and optimizer-domain): fixed entries == the starting value (after a nested "
@@ -29,7 +30,8 @@ BOUNDS = {"quick": "all 7 masks + none, sequences <=3, 3 sampler settings, scale
 
 V = 3
 X0 = np.array([0.5, -1.0, 2.0])
-REQUESTS = [("f", 0), ("f", 1), ("g", 0), ("g", 1), ("fg", 0), ("fg", 1)]
+REQUESTS = [("f", 0), ("f", 1), ("g", 0), ("g", 1), ("fg", 0), ("fg", 1), ("fb", 0)]
+START_SHIFT = np.array([0.125, 0.25, -0.5])
 SAMPLERS = ["one", "two", "design"]
 
 
@@ -69,13 +71,14 @@ def build_config(mask: Any, sampler: str, method: str, options: Any) -> dict[str
 class Monitor:
     """Checks every evaluator row and every delivered result against the expected fixed values."""
 
-    def __init__(self, j: Judgement, mask: Any, transforms: Any, tag: str) -> None:
+    def __init__(self, j: Judgement, mask: Any, transforms: Any, tag: str, start: np.ndarray | None = None) -> None:
         self.j = j
+        self.start = X0 if start is None else start
         self.free = np.ones(V, dtype=bool) if mask is None else np.array(mask, dtype=bool)
         self.fixed = ~self.free
         self.transforms = transforms
         self.tag = tag
-        self.expected_fixed = X0[self.fixed].copy()  # user domain
+        self.expected_fixed = self.start[self.fixed].copy()  # user domain
         self.rows = 0
         self.results = 0
 
@@ -96,7 +99,7 @@ class Monitor:
 
         exp_opt = None
         if self.transforms is not None and self.transforms.variables is not None:
-            full = X0.copy()
+            full = self.start.copy()
             full[self.fixed] = self.expected_fixed
             exp_opt = self.transforms.variables.to_optimizer(full)[self.fixed]
         for key, expected in (("results", self.expected_fixed), ("transformed_results", exp_opt)):
@@ -124,7 +127,7 @@ def transforms_of(flag: bool) -> Any:
     return make_transforms(var_scales=[2.0, 0.5, 4.0], var_offsets=[1.0, -1.0, 0.0]) if flag else None
 
 
-def run_plan(config: dict[str, Any], transforms: Any, monitor: Monitor, j: Judgement, *, n_con: int = 1) -> Any:
+def run_plan(config: dict[str, Any], transforms: Any, monitor: Monitor, j: Judgement, *, n_con: int = 1, start: np.ndarray | None = None) -> Any:
     from ropt.enums import EventType
     from ropt.plan import OptimizerContext, Plan
 
@@ -135,7 +138,11 @@ def run_plan(config: dict[str, Any], transforms: Any, monitor: Monitor, j: Judge
     context.add_observer(EventType.FINISHED_EVALUATION, monitor.check_event)
     plan = Plan(context)
     step = plan.add_step("optimizer")
-    code = plan.run_step(step, config=config, transforms=transforms)
+    if start is None:
+        code = plan.run_step(step, config=config, transforms=transforms)
+    else:
+        start_opt = start if transforms is None or transforms.variables is None else transforms.variables.to_optimizer(start)
+        code = plan.run_step(step, config=config, transforms=transforms, variables=start_opt)
     for call in evaluator.calls:
         monitor.check_rows(call.variables)
     return code, scripted, evaluator
@@ -147,12 +154,16 @@ def judge_scripted(case: dict[str, Any]) -> Judgement:
     n_free = V if mask is None else sum(mask)
     script = []
     for kind, idx in case["sequence"]:
-        script.append([free_point(n_free, idx), kind in ("f", "fg"), kind in ("g", "fg")])
+        if kind == "fb":
+            script.append([[free_point(n_free, 0), free_point(n_free, 1)], True, False])
+        else:
+            script.append([free_point(n_free, idx), kind in ("f", "fg"), kind in ("g", "fg")])
     config = build_config(mask, case["sampler"], "verif/scripted", {"script": script})
     transforms = transforms_of(case["scaler"])
-    monitor = Monitor(j, mask, transforms, "scripted")
+    start = X0 + START_SHIFT if case.get("explicit_start") else None
+    monitor = Monitor(j, mask, transforms, "scripted", start)
     try:
-        code, scripted, evaluator = run_plan(config, transforms, monitor, j)
+        code, scripted, evaluator = run_plan(config, transforms, monitor, j, start=start)
     except Exception as exc:  # noqa: BLE001
         j.fail(f"scripted-run-raised:{type(exc).__name__}", message=str(exc)[:200])
         return j
@@ -160,7 +171,7 @@ def judge_scripted(case: dict[str, Any]) -> Judgement:
     # (Optimizer.start receives the full initial vector by API design; slicing by the mask is the plug-in's job and is
     #  observed on the real SciPy plug-in in judge_real.)
     for (x, want_f, want_g), (functions, gradients) in zip(log.requests, log.answers):
-        if want_g and np.asarray(gradients).shape != (2, n_free):
+        if want_g and np.asarray(x).ndim == 1 and np.asarray(gradients).shape != (2, n_free):
             j.fail("gradient-handed-to-algorithm-has-wrong-width", observed=np.asarray(gradients).shape, n_free=n_free)
     j.transitions = len(script)
     j.trivial = mask is None or all(mask)
@@ -183,13 +194,16 @@ def judge_real(case: dict[str, Any]) -> Judgement:
     if method == "nelder-mead":
         config.pop("nonlinear_constraints")
     transforms = transforms_of(case["scaler"])
-    monitor = Monitor(j, mask, transforms, f"real-{method}")
+    start = X0 + START_SHIFT if case.get("explicit_start") else None
+    if case.get("parallel"):
+        config["optimizer"]["parallel"] = True
+    monitor = Monitor(j, mask, transforms, f"real-{method}", start)
     seen: list[int] = []
     orig_min, orig_de = plugin.minimize, plugin.differential_evolution
 
     def wrap(fun: Any) -> Any:
         def inner(x: Any, *args: Any) -> Any:
-            seen.append(np.asarray(x).shape[0])
+            seen.append(np.asarray(x).shape[0])  # vectorized DE passes (n_free, population) arrays
             return fun(x, *args)
         return inner
 
@@ -211,7 +225,7 @@ def judge_real(case: dict[str, Any]) -> Judgement:
 
     plugin.minimize, plugin.differential_evolution = min_wrapper, de_wrapper
     try:
-        code, _, evaluator = run_plan(config, transforms, monitor, j, n_con=0 if method == "nelder-mead" else 1)
+        code, _, evaluator = run_plan(config, transforms, monitor, j, n_con=0 if method == "nelder-mead" else 1, start=start)
     except Exception as exc:  # noqa: BLE001
         j.fail(f"real-run-raised:{type(exc).__name__}", message=str(exc)[:200], method=method)
         return j
@@ -352,17 +366,24 @@ def run_shard(shard: dict[str, Any]) -> core.ShardResult:
         depth = 4 if shard["tier"] == "thorough" else 3
         for n in range(1, depth + 1):
             for seq in itertools.product(REQUESTS, repeat=n):
-                case = {"kind": "scripted", "mask": mask, "sampler": shard["sampler"], "scaler": shard["scaler"], "sequence": [list(s) for s in seq]}
-                rec.add(("s", key_mask, shard["sampler"], shard["scaler"], seq), case, judge_scripted(case))
+                for explicit in (False, True):
+                    if explicit and n == depth and depth > 2:
+                        continue  # explicit starts: one level shallower
+                    case = {"kind": "scripted", "mask": mask, "sampler": shard["sampler"], "scaler": shard["scaler"],
+                            "sequence": [list(s) for s in seq], "explicit_start": explicit}
+                    rec.add(("s", key_mask, shard["sampler"], shard["scaler"], seq, explicit), case, judge_scripted(case))
     elif shard["kind"] == "real":
         for sampler in SAMPLERS:
             for scaler in (False, True):
-                case = {"kind": "real", "mask": mask, "method": shard["method"], "sampler": sampler, "scaler": scaler}
-                rec.add(("r", key_mask, shard["method"], sampler, scaler), case, judge_real(case))
+                for explicit in (False, True):
+                    for parallel in ((False, True) if shard["method"] == "differential_evolution" else (False,)):
+                        case = {"kind": "real", "mask": mask, "method": shard["method"], "sampler": sampler, "scaler": scaler,
+                                "explicit_start": explicit, "parallel": parallel}
+                        rec.add(("r", key_mask, shard["method"], sampler, scaler, explicit, parallel), case, judge_real(case))
     else:
         depth = 3 if shard["tier"] == "quick" else 4
         for n in range(1, depth + 1):
-            for seq in itertools.product(REQUESTS, repeat=n):
+            for seq in itertools.product(REQUESTS[:6], repeat=n):  # nested optimization does not support batches
                 case = {"kind": "nested", "mask": mask, "sampler": shard["sampler"], "sequence": [list(s) for s in seq]}
                 rec.add(("n", key_mask, shard["sampler"], seq), case, judge_nested(case))
     return rec.finish()
